@@ -32,6 +32,10 @@ func (c c11call) lit() string {
 		return "&amodel.T{}"
 	case 5:
 		return "&bmodel.T{}"
+	case 6:
+		return "&Box[int]{}"
+	case 7:
+		return "&Box[string]{}"
 	}
 	return fmt.Sprintf("&T%d{}", c.typ)
 }
@@ -134,7 +138,7 @@ func (p c11pkg) userDecls() string {
 
 func (p c11pkg) usesModel() bool {
 	for _, c := range p.calls {
-		if c.typ >= 4 {
+		if c.typ == 4 || c.typ == 5 {
 			return true
 		}
 	}
@@ -158,6 +162,13 @@ func (p c11pkg) files() pkgFiles {
 func (p c11pkg) files0() pkgFiles {
 	var a, b strings.Builder
 	a.WriteString("package m\n\ntype T1 struct{ A int }\ntype T2 struct{ B int }\ntype T3 struct{ C int }\n\n")
+	for _, c := range p.calls {
+		if c.typ >= 6 {
+			// two instantiations of one generic type are two argument types
+			a.WriteString("type Box[T any] struct{ V T }\n\n")
+			break
+		}
+	}
 	if p.userFn && !p.lateUse {
 		a.WriteString(p.userDecls())
 	}
@@ -280,6 +291,13 @@ func checkC11(tier string) {
 			alphabet3 = append(alphabet3, c11call{"Equal", sf, t, false})
 		}
 	}
+	// fourth alphabet: two instantiations of one generic struct
+	var alphabet4 []c11call
+	for _, t := range []int{6, 7} {
+		for _, sf := range []string{"", "A"} {
+			alphabet4 = append(alphabet4, c11call{"Equal", sf, t, false})
+		}
+	}
 	var pkgs []c11pkg
 	var gen func(cur []c11call)
 	gen = func(cur []c11call) {
@@ -317,6 +335,8 @@ func checkC11(tier string) {
 	alphabet = alphabet2
 	gen(nil)
 	alphabet = alphabet3
+	gen(nil)
+	alphabet = alphabet4
 	gen(nil)
 	flagSets := [][]string{nil, {"-autoname"}, {"-dedup"}, {"-autoname", "-dedup"}}
 	type item struct {
